@@ -31,7 +31,7 @@ CHECKS = {
     level="model_checking", ref="DESIGN.md §4 C18",
     technique="TLC model check WsConn.tla; TLC-enumerated segmentations (WsSeg.tla) replayed through a real WebSocket listener with a TCP twin as reference",
     text="WsConn.tla: TLC checks that reads concatenate to the stream of binary payloads for all splits and read sizes in the bound; WsSeg.tla enumerates segmentations (all compositions of short streams, boundary families around the 1024-byte "
-         "reader buffer, cuts at -1/0/+1 of every packet boundary, empty and text messages); each is sent through gorilla/websocket to a real broker and the answers are compared byte for byte with the same stream over TCP.",
+         "reader buffer, cuts at -1/0/+1 of every packet boundary, empty and text messages); each is sent through gorilla/websocket to a real broker and the answers are compared byte for byte with the same stream over TCP. Also: empty text messages; unread bytes behind DISCONNECT followed by fresh connections (own broker, one scenario at a time); streams whose last written packet is exactly 1024 / 2048 bytes; when the TCP twin is unusable the reference is what MQTT demands for the stream, decoded with the independent codec.",
     note="Bounded stream lengths / families; trusted: gorilla/websocket client, TCP twin as reference."),
  "C07": dict(
     level="model_checking", ref="DESIGN.md §4 C07",
@@ -58,7 +58,7 @@ CHECKS = {
     technique="TLC-evaluated independent wire-format definition (Codec.tla: encoder, decoder, size formula, 44 fault operators) generating valid and faulted vectors for the real decoder/encoder; TopicStr.tla validity tables",
     text="PARTIAL (DESIGN.md §6): decided for the grammar and its fault-operator closure, not for arbitrary byte strings. Codec.tla is an independent definition of MQTT 3.1/3.1.1/5 (all 15 packet types, property table with multiplicities); TLC asserts "
          "Len(Enc(p)) = SizeFormula(p), Dec(Enc(p)) = p and that each fault lands outside the image of Enc, and emits ~1.5e4 (quick) / ~2.7e5 (thorough) vectors. The driver feeds them to packets.Reader (guard bytes, watchdog, allocation limit): valid => accepted, "
-         "fields equal, consumed exactly, re-encodes, TotalBytes and Message.TotalBytes = length; faulted => error, no panic; the real encoder's output must equal Enc(p). Topic name/filter validity: byte-level table incl. NUL and invalid UTF-8.",
+         "fields equal, consumed exactly, re-encodes, TotalBytes and Message.TotalBytes = length; faulted => error, no panic; the real encoder's output must equal Enc(p). Topic name/filter validity: byte-level table incl. NUL and invalid UTF-8. A concurrent phase (64 goroutines encoding validated MQTT 5 values) checks that a value encodes to the same bytes whatever other encoders do (shared scratch-buffer pool).",
     note="Not decided: arbitrary byte strings (no fuzzing by design), the 2 097 151/2 097 152 remaining-length boundary. Four open known findings (D7, D5 rest, D11, D4 rest) pinned by existing tests or not small."),
  "C14": dict(
     level="model_checking", ref="DESIGN.md §4 C14",
@@ -73,14 +73,14 @@ CHECKS = {
     text="Alias manager: TLC enumerates every topic sequence up to length 6 (8 thorough) over 4 topics for max 1..3; each real answer is judged by the client-view rule (alias in 1..max; alias-only resolves to the real topic). "
          "Limits: boundary scenarios over validator-accepted configurations: outbound PUBLISH sizes at M-1/M/M+1 of the client's Maximum Packet Size (dropped whole, connection stays), outbound aliases within the client's maximum and resolving, "
          "inbound aliases 1..max with rebinding (never disconnected) and 0 / max+1 / 65535 / unbound (0x94), QoS2 exchanges held open up to Receive Maximum (ok) and one more (0x93), inbound packets at max-1/max (ok) and max+1 (0x95); "
-         "TLC validates every event against Broker.tla (Offences, SrvDisconnect only when owed, Fits).",
+         "TLC validates every event against Broker.tla (Offences, SrvDisconnect only when owed, Fits). Extremes of the accepted configuration (topic_alias_maximum 65535) and Receive Maximum across a session resume (re-sent / duplicate PUBREL) are part of the families.",
     note="Would-be forwarded size computed by the independent codec for the one size-limited subscriber of a scenario. v5 only (v3 has no such limits). Bounded configurations: server_receive_maximum {1,2,3,10,100,65535}, topic_alias_maximum {1,2,5,10}, max_packet_size {40..300}."),
  "C19": dict(
     level="model_checking", ref="DESIGN.md §4 C19",
     technique="TLC exhaustive AuthGate.tla + transition-coverage replay against a real broker with the real auth plugin (mqttwire clients, account API handlers, restarts)",
     text="AuthGate.tla (accounts, password file, victim-state tokens; Update/Delete/Restart/Connect/PreAuth) is explored exhaustively; every transition is replayed on a fresh real broker with the real auth plugin: concrete credentials for the abstract classes "
          "(exact, prefix, case, trailing NUL, repeated, empty, 65535 bytes), user/password flag combinations, v3.1/v3.1.1/v5, Authentication Method/Data present, all four hash algorithms, absolute and relative password files, TCP and WebSocket listeners; "
-         "accept/reject, account-operation effects, what a restarted broker loads, and inertness of packets before / after a failed CONNECT (service snapshots) are compared with the specification.",
+         "accept/reject, account-operation effects, what a restarted broker loads, and inertness of packets before / after a failed CONNECT (service snapshots) are compared with the specification. Phase burst = packets behind a PINGREQ in one write without any CONNECT; a crash of a broker goroutine during the replay is reported as a violation.",
     note="Two open known findings (valid credentials refused when an Authentication Method is present - allowed by MQTT 5; failing CONNACK occasionally lost). bcrypt cost is the plugin's fixed MinCost."),
  "C12": dict(
     level="model_checking", ref="DESIGN.md §4 C12",
@@ -118,13 +118,13 @@ CHECKS = {
     technique="TLC exhaustive FedStream.tla / FedEmit.tla + transition-coverage replay on the real eventQueue / sessionMgr / initStream / eventStreamHandler through the verif export, with driver-controlled fake bidi streams; trace validation (FedDelivery.tla) of two real Federation objects connected by real gRPC through a byte-cutting proxy",
     text="FedStream.tla models one ordered pair of nodes at the grain of the code (Emit, Hello resume/clean + resync, Fetch, SrvRecv, SrvAck, CliAck, Break losing any suffix of both channels at any time incl. during the handshake and between send and "
          "acknowledgement, restarts, node fail/rejoin); TLC checks AppliedIsPrefix / NoGapNoDup / QuiescentView on all schedules in the bound and every transition is replayed on the REAL federation objects with the network played by the driver; "
-         "applied events, the peer's view vs the node's reference-counted local set and queue contents are compared after each step.",
+         "applied events, the peer's view vs the node's reference-counted local set and queue contents are compared after each step. Real-gRPC tier: two real Federation objects with A's own connect / back-off loop through a byte-cutting TCP proxy, also with > 100 topics at the join, bursts of > 100 events and a second goroutine emitting across the first handshake; traces validated against FedDelivery.tla. The hook-emission schedule of FedEmit.tla is forced on OnUnsubscribed and on OnSessionTerminated.",
     note="FedStream replay: cuts at message grain, network played by the driver. Byte grain: a second tier puts real gRPC and A's real connect / back-off loop between two real Federation objects; a proxy cuts the TCP connection after 0..500 bytes in either direction; TLC validates the emit / apply / quiet traces against FedDelivery.tla (no peer restarts in that tier). One open known finding (clean Hello whose answer is lost; its repair is pinned by TestFederation_Hello). Batch and duplicate-filter constants (100) are never exhausted by the bounded histories."),
  "C17": dict(
     level="model_checking", ref="DESIGN.md §4 C17",
     technique="TLC exhaustive FedRoute.tla + transition-coverage replay of the real sendMessage / OnMsgArrivedWrapper / OnWillPublishWrapper / receive path with recording peer queues and retained stores",
     text="FedRoute.tla: 3 nodes, local subscriptions (plain, wildcard, shared, $), converged mirrored views; invariants ForwardedIffNeeded, NoEcho, GroupOnceFederationWide, RetainedEverywhere checked by TLC; every publication transition is replayed on real "
-         "Federation objects: the set of peers the message is queued for, the local delivery options, what each receiver delivers and the retained-store effect are compared with the specification.",
+         "Federation objects: the set of peers the message is queued for, the local delivery options, what each receiver delivers and the retained-store effect are compared with the specification. The message the receiving node publishes is compared with the origin's in every application field.",
     note="Three open known findings (share group spanning nodes: starved / served twice / retained served per node) - structural (the Message event carries no group information). Views are assumed converged (C16 covers convergence)."),
  "C15": dict(
     level="model_checking", ref="DESIGN.md §4 C15, App. B.4, §6",
